@@ -231,6 +231,11 @@ class C10(Prop):
             else:
                 a, b, c = RungeKutta(s["rk"]).tableau
                 T = evo.stability_poly_apply(a, b[0], A, T)
+            if mode == "imag_poly" and not adaptive and np.linalg.norm(T) <= 1e-6 * np.linalg.norm(T0):
+                # the stability polynomial has a root exactly on the spectrum of this state (e.g. (1 - tau H) psi with H a projector
+                # and tau ||H|| = 1): the propagated vector is zero up to rounding and its direction is undefined
+                r.rejected = "the propagation polynomial annihilates the state exactly (DESIGN §3.4)"
+                return
             if case["normalize"]:
                 T = T / np.linalg.norm(T)
                 coeff = coeff / abs(coeff)
